@@ -26,14 +26,20 @@ counters of `b`, which these functions do not touch.  `CB c`: the control callba
 /-- SCPI_RegGet, for every context and every name (0 outside the register file) -/
 theorem c_regGet (c : CCtx) (b : St) (name : Nat) : SCPI_RegGet c name = get (toSt c b) name := regGet_refines c b name
 
-/-- SCPI_RegSet, for every context with the callback installed, every name (out-of-range names included: nothing changes)
-and every 16-bit value: registers and service-request log as in the model -/
-theorem c_regSet (c : CCtx) (b : St) (name : Nat) (val : Reg) (hcb : CB c) :
-    toSt (SCPI_RegSet c name val) b = regSet (toSt c b) name val := regSet_refines c b name val hcb
-theorem c_regSetBits (c : CCtx) (b : St) (name : Nat) (bits : Reg) (hcb : CB c) :
-    toSt (SCPI_RegSetBits c name bits) b = regSetBits (toSt c b) name bits := regSetBits_refines c b name bits hcb
-theorem c_regClearBits (c : CCtx) (b : St) (name : Nat) (bits : Reg) (hcb : CB c) :
-    toSt (SCPI_RegClearBits c name bits) b = regClearBits (toSt c b) name bits := regClearBits_refines c b name bits hcb
+/-- SCPI_RegSet, for every context with the callback installed and a register file of SCPI_REG_COUNT entries (what the C
+type of `registers` says), every name (out-of-range names included: nothing changes) and every 16-bit value: registers
+and service-request log as in the model -/
+theorem c_regSet (c : CCtx) (b : St) (name : Nat) (val : Reg) (hcb : CB c) (hlen : c.registers.length = regCount) :
+    toSt (SCPI_RegSet c name val) b = regSet (toSt c b) name val := regSet_refines c b name val hcb hlen
+theorem c_regSetBits (c : CCtx) (b : St) (name : Nat) (bits : Reg) (hcb : CB c) (hlen : c.registers.length = regCount) :
+    toSt (SCPI_RegSetBits c name bits) b = regSetBits (toSt c b) name bits := regSetBits_refines c b name bits hcb hlen
+theorem c_regClearBits (c : CCtx) (b : St) (name : Nat) (bits : Reg) (hcb : CB c) (hlen : c.registers.length = regCount) :
+    toSt (SCPI_RegClearBits c name bits) b = regClearBits (toSt c b) name bits := regClearBits_refines c b name bits hcb hlen
+
+/-- both hypotheses are kept by SCPI_RegSet, so the theorems apply call after call -/
+theorem c_regSet_keeps (c : CCtx) (b : St) (name : Nat) (val : Reg) (hcb : CB c) (hlen : c.registers.length = regCount) :
+    CB (SCPI_RegSet c name val) ∧ (SCPI_RegSet c name val).registers.length = regCount :=
+  ⟨regSet_cb c name val hcb, regSet_length c b name val hcb hlen⟩
 
 /-- the fuel the translator gives the loop of SCPI_RegSet suffices for the generated tables: the out-of-fuel flag is never
 set (any context, any name, any value), and the interface pointers / the callback's answer are left alone -/
@@ -66,17 +72,18 @@ def gstep (s : St) : Op → St
   | .preset => toSt (SCPI_RegSet (ofSt s) QUES 0) s
   | op => step s op
 
-theorem c_gstep (s : St) (op : Op) : gstep s op = step s op := by
-  cases op <;> simp only [gstep, step, c_regSet _ _ _ _ (cb_ofSt s), c_regSetBits _ _ _ _ (cb_ofSt s),
-    c_regClearBits _ _ _ _ (cb_ofSt s), toSt_ofSt]
+theorem c_gstep (s : St) (op : Op) (hwf : WF s) : gstep s op = step s op := by
+  have hl : (ofSt s).registers.length = regCount := hwf.1
+  cases op <;> simp only [gstep, step, c_regSet _ _ _ _ (cb_ofSt s) hl, c_regSetBits _ _ _ _ (cb_ofSt s) hl,
+    c_regClearBits _ _ _ _ (cb_ofSt s) hl, toSt_ofSt]
 
-/-- one call of a generated function keeps coherence (any context with the callback, all 16-bit values, any register but
-the status byte itself) -/
+/-- one call of a generated function keeps coherence (any well-formed context with the callback, all 16-bit values, any
+register but the status byte itself) -/
 theorem c_coherent_step (c : CCtx) (b : St) (name : Nat) (val : Reg) (hcb : CB c) (hwf : WF (toSt c b))
     (hc : Coherent (toSt c b)) (hn : name ≠ STB) :
     Coherent (toSt (SCPI_RegSet c name val) b) ∧ Coherent (toSt (SCPI_RegSetBits c name val) b) ∧
     Coherent (toSt (SCPI_RegClearBits c name val) b) := by
-  rw [c_regSet _ _ _ _ hcb, c_regSetBits _ _ _ _ hcb, c_regClearBits _ _ _ _ hcb]
+  rw [c_regSet _ _ _ _ hcb hwf.1, c_regSetBits _ _ _ _ hcb hwf.1, c_regClearBits _ _ _ _ hcb hwf.1]
   have h : ∀ op : Op, op.ok = true → Coherent (step (toSt c b) op) := fun op h => coherent_step _ op hwf hc h
   exact ⟨h (.set name val) (by simpa [Op.ok] using hn), h (.setBits name val) (by simpa [Op.ok] using hn),
     h (.clearBits name val) (by simpa [Op.ok] using hn)⟩
@@ -84,20 +91,28 @@ theorem c_coherent_step (c : CCtx) (b : St) (name : Nat) (val : Reg) (hcb : CB c
 /-- application writes to the status byte through the generated functions, under the condition of `coherent_step_app` -/
 theorem c_coherent_step_app (s : St) (op : Op) (hwf : WF s) (hc : Coherent s) (hop : op.okIn s = true) :
     Coherent (gstep s op) := by
-  rw [c_gstep]; exact coherent_step_app s op hwf hc hop
+  rw [c_gstep s op hwf]; exact coherent_step_app s op hwf hc hop
+
+/-- a history run through the generated text is the history of the model -/
+theorem c_gstep_foldl (ops : List Op) : ∀ (s : St), WF s → ops.foldl gstep s = ops.foldl step s := by
+  induction ops with
+  | nil => intros; rfl
+  | cons op ops ih =>
+    intro s hwf
+    simp only [List.foldl_cons, c_gstep s op hwf]
+    exact ih _ (wf_step s op hwf)
 
 /-- Full statement with the register operations run through the generated text -/
 theorem c_coherent_reachable (cap : Nat) (hcap : 1 ≤ cap) (ops : List Op) (hops : ∀ op ∈ ops, op.ok = true) :
     Coherent (ops.foldl gstep (St.init cap)) := by
-  have e : gstep = step := by funext s op; exact c_gstep s op
-  rw [e]; exact coherent_reachable cap hcap ops hops
+  rw [c_gstep_foldl ops _ (wf_init cap hcap)]; exact coherent_reachable cap hcap ops hops
 
 /-- what a direct SCPI_RegSet on the status byte leaves there (generated text) -/
 theorem c_stb_after_set (c : CCtx) (b : St) (v : Reg) (hcb : CB c) (hwf : WF (toSt c b)) (hc : Coherent (toSt c b)) :
     SCPI_RegGet (SCPI_RegSet c STB v) STB =
       if (v &&& ~~~bit Gen.STB_SRQ) &&& (SCPI_RegGet c SRE &&& ~~~bit Gen.STB_SRQ) ≠ 0 then v ||| bit Gen.STB_SRQ
       else v &&& ~~~bit Gen.STB_SRQ := by
-  rw [c_regGet _ b, c_regGet _ b, c_regSet _ _ _ _ hcb]
+  rw [c_regGet _ b, c_regGet _ b, c_regSet _ _ _ _ hcb hwf.1]
   exact stb_after_set (toSt c b) v hwf hc
 
 example : Coherent ([Op.set ESR 0x20, .set ESE 0x20, .errPush (-100), .set SRE 0x24, .errPop, .esrQ].foldl gstep (St.init 2)) := by
